@@ -39,6 +39,13 @@ Proof. vm_compute. reflexivity. Qed.
 Theorem every_incidental_site_known : unknown_incidental_sites = [].
 Proof. vm_compute. reflexivity. Qed.
 
+(** no long-lived object of the consensus code holds a process-local map / cache / sync object beyond the reviewed ones,
+    and no package-level map is written after initialisation: execution reads nothing but the store and the block *)
+Definition unreviewed_process_state : list pstate := filter (fun p => negb (ps_okb p)) process_state.
+
+Theorem no_unreviewed_process_state : unreviewed_process_state = [].
+Proof. vm_compute. reflexivity. Qed.
+
 Definition current_cfg : cfg := cfg_of_facts map_sites toslice_uses.
 
 Theorem current_cfg_ok : cfg_ok current_cfg = true.
